@@ -96,6 +96,7 @@ def run(chk):
     A = mf.A
     nmove = 0
     nfill = 0
+    nreset = 0
     for fid in sorted(prog.reachable(["merge::merge_modules"])):
         if not fid.startswith("merge::"):
             continue
@@ -138,6 +139,19 @@ def run(chk):
                 if all(dr == sr for dr, _ in dparams for sr, _ in sparams):
                     continue      # pushes within one module (not a transfer)
                 nmove += 1
+                # the moved element forgets its position in the file it came from (uid, line, include file) before it is stored:
+                # otherwise sort_new_items() / the writer treat it as an element that already has a place in the destination file
+                pt = b.blocks[ev[6]]["t"]
+                el = mir.op_place(pt["args"][1]) if len(pt["args"]) > 1 else None
+                if el is not None and (b.locals[el["l"]].get("adt") or "").startswith("specification::"):
+                    from . import c10
+                    eroot = c10.value_root(b, el["l"])
+                    resets = [(bi, t) for bi, t in b.calls() if mir.strip_generics((t.get("res") or "").lstrip("?")).endswith("::reset_location") and t["args"] and mir.op_place(t["args"][0]) is not None
+                              and c10.value_root(b, mir.op_place(t["args"][0])["l"]) == eroot]
+                    nreset += 1
+                    if not any(b.dominates(bi, ev[6]) for bi, t in resets):
+                        for dr, dp in dparams:
+                            chk.add(Finding("R08-reset", "R08-reset::%s::%s" % (mir.strip_generics(fid), dp), "%s stores an element of the merged-in module in %s without reset_location(): it keeps the uid and line of its source file, so it is written at a foreign position and sort_new_items() treats it as already placed" % (fid, dp), b.where(ev[4])))
                 for dr, dp in dparams:
                     if not any(sp == dp or sp.startswith(dp) for sr, sp in sparams if sr != dr):
                         chk.add(Finding("R08-move", "R08-move::%s::%s" % (mir.strip_generics(fid), dp), "%s pushes elements of %s into %s: wrong list" % (fid, sorted(sp for _, sp in sparams), dp), b.where(ev[4])))
@@ -155,6 +169,7 @@ def run(chk):
                                         ok = True
                         if not ok and ns not in ("function", "group", "user"):
                             chk.add(Finding("R08-move", "R08-move::action::%s::%s" % (mir.strip_generics(fid), dp), "elements are moved into %s (namespace %s) under the action table of %s: duplicates or losses in that namespace" % (dp, ns, sorted(set(str(t) for t in tabs)) or "no table"), b.where(ev[4])))
+    chk.rule("R08-reset", "elements moved from the merged-in module whose location info is reset before they are stored", nreset, floor=20)
     chk.rule("R08-move", "transfers of elements from the merged-in module: same list, decided by that namespace's action table", nmove, floor=20)
     chk.rule("R08-frame-fill", "assignments of whole fields from the merged-in module guarded by a test that the destination has none", nfill, floor=8)
 
